@@ -457,8 +457,8 @@ func (ck *checker) check1(p jpref.Path, data any, enum bool) {
 		}
 	}
 	if len(got) < req || len(got) > len(want) {
-		c.Cover("pivot-disagrees-with-J(left to C05)")
-		return
+		// reported by C05; the comparisons with Get below still apply (the property is agreement with Get)
+		c.Cover("pivot-disagrees-with-J")
 	}
 	for _, f := range p {
 		if f.Kind == "slice" && len(f.Slice) == 3 && f.Slice[2] < 0 {
@@ -592,7 +592,7 @@ func (ck *checker) check1(p jpref.Path, data any, enum bool) {
 		}
 	}
 	// other representations
-	reprs := map[string]any{}
+	reprs := map[string]any{"gen": gd}
 	used := map[string]bool{}
 	typed := toTyped(treegen.Dup(data), used, 0)
 	if len(used) > 0 {
@@ -611,6 +611,8 @@ func (ck *checker) check1(p jpref.Path, data any, enum bool) {
 			for k := range used {
 				c.Cover("repr:" + k)
 			}
+		} else if name == "gen" {
+			c.Cover("repr:gen")
 		} else {
 			c.Cover("repr:keyed")
 			c.Cover("repr:indexed")
